@@ -23,6 +23,8 @@ template <class T> static int dec(const unsigned char *key, size_t klen, const u
     T obj;
     if (!obj.set_key(key, klen)) return -1000;
     { static unsigned longer; if (longer++ & 1) { unsigned char nb[21]; memcpy(nb, nonce, 16); memset(nb + 16, 0xE7, 5); obj.set_nonce(nb, 21); } else obj.set_nonce(nonce, 16); }
+    /* refused keying calls in between leave the accepted key in force */
+    if (obj.set_key(key, klen + 1) || obj.set_key(key, 3) || obj.set_key(0, klen)) return -1002;
     return obj.decrypt(m, c, clen, ad, adlen);
 }
 #define DISPATCH(fn, ...) \
@@ -132,6 +134,9 @@ template <class T> static int enc_rk(const unsigned char *key, size_t klen, cons
     if (!(zero ? obj.set_key(key, 0) : obj.set_key(key, klen))) return -1001;
     /* refused keying calls (unsupported length, null pointer with a length) return false and leave the accepted key in place */
     if (obj.set_key(key, klen + 1) || obj.set_key(key, 7) || obj.set_key(0, klen) || obj.set_key(0, 80)) return -1002;
+    /* refused packets (forged, shorter than the tag; pointer and byte_array forms) leave the nonce where it is */
+    { unsigned char junk[40], t[40]; memset(junk, 0x3D, sizeof junk); ascon::byte_array bj = ascon::bytes_from_data(junk, 33), bo;
+      if (obj.decrypt(t, junk, 33, 0, 0) >= 0 || obj.decrypt(t, junk, 9, 0, 0) >= 0 || obj.decrypt(bo, bj) || obj.decrypt(bo, bj, bj)) return -1003; }
     return obj.encrypt(c, m, mlen, ad, adlen);
 }
 extern "C" int cpp_encrypt_rekey(int family, int alg, const unsigned char *key, const unsigned char *nonce,
